@@ -69,6 +69,9 @@ func c16(tier string) []*explore.Scenario {
 	if tier == "thorough" {
 		out = append(out, c16Many(4, 2, true, 1), c16Many(3, 3, false, 1))
 	}
+	for pos := 0; pos < 4; pos++ {
+		out = append(out, c16ServerLinkWriteFault(pos, 4, 1))
+	}
 	out = append(out, c16RPC("payloads", true, 0))
 	out = append(out, c16Burst(12, 0), c16Burst(50, 0), c16Burst(24, 1))
 	out = append(out, withoutDisconnectCallback(pickScenarios(out, "C16/opseq/", "C16/reattach/after-old-fails")...)...)
@@ -533,4 +536,63 @@ func c16Many(nc, ns int, preAttach bool, bound int) *explore.Scenario {
 			vsched.Obs("clients=%d servers=%d: all %d calls completed; dialled %v", nc, ns, 2*nc, t.Dialed)
 		},
 	}
+}
+
+// c16ServerLinkWriteFault: one Write on the transport between the server's demultiplexer and the proxy
+// fails (once; later writes work) for the pos-th message of a server stream. The message is lost - the
+// transport said so - and the stream must not be reported complete to the caller with it missing: the
+// caller sees an error (here at the latest its deadline), never a clean end with a gap.
+func c16ServerLinkWriteFault(pos, n, bound int) *explore.Scenario {
+	fam := "C16/server-link-write-fault"
+	return &explore.Scenario{
+		Name: fmt.Sprintf("C16/server-link-write-fault/message=%d-of-%d/d=%d", pos, n, bound), Family: fam, Prop: "C16", Bound: bound, Horizon: time.Minute,
+		Run: func() {
+			w := env.NewWorld()
+			env.MsgSize = 0
+			t := env.NewProxyTopo(w, env.ProxyOpts{Clients: 1, PreAttach: true, Cap: 64})
+			vsched.Settle()
+			bodies := 0
+			t.SPipe.B.OnWriteCall = func(k int, rpc *env.Rpc) {
+				if rpc.GetBody() != nil {
+					if bodies == pos {
+						t.SPipe.B.FailNextWrites = 1
+					}
+					bodies++
+				}
+			}
+			vsched.Explore(true)
+			c := streamCase{"SStream", "sendall", "burst", 1, n, 0}
+			r := w.Rec("s", c.kind)
+			w.Handlers["s"] = c.handler()
+			ctx, cancel := context.WithTimeout(context.Background(), 3*time.Second)
+			defer cancel()
+			vsched.GoNamed("caller-s", func() { c.runCaller(w, t.CCs[0], ctx, r) })
+			vsched.QuiesceTime()
+			vsched.Obs("%s", r.Summary())
+			if !r.CDone {
+				vsched.Fail(fam+"|hang", "the caller of a stream that lost a message on the server's link never returned (3 s deadline): %s", r.Summary())
+				return
+			}
+			if r.CErr == io.EOF && !eqStrs(r.CRecv, r.HSent) {
+				vsched.Fail(fam+"|complete-with-loss", "the write of message %d of %d failed on the server's link; the stream was reported complete (io.EOF) with received %v, the handler sent %v", pos, n, r.CRecv, r.HSent)
+			}
+			if !subseqOf(r.CRecv, r.HSent) {
+				vsched.Fail(fam+"|altered-or-reordered", "received %v is not what the handler sent (%v) in order", r.CRecv, r.HSent)
+			}
+		},
+	}
+}
+
+func subseqOf(a, b []string) bool {
+	j := 0
+	for _, x := range a {
+		for j < len(b) && b[j] != x {
+			j++
+		}
+		if j == len(b) {
+			return false
+		}
+		j++
+	}
+	return true
 }
